@@ -96,6 +96,7 @@ func findSelectorExprViolation(
 	if obj == nil {
 		return nil
 	}
+	obj = resolveTypeAlias(obj)
 
 	// Get package information
 	pkg := obj.Pkg()
@@ -127,6 +128,24 @@ func findSelectorExprViolation(
 	return nil
 }
 
+// resolveTypeAlias returns the object a use of obj refers to as far as @packageonly is
+// concerned: for a type alias (type A = T, type A = *T) the defined type it names,
+// obj itself otherwise. A restricted type stays restricted when it is used through an alias.
+func resolveTypeAlias(obj types.Object) types.Object {
+	typeName, ok := obj.(*types.TypeName)
+	if !ok || !typeName.IsAlias() {
+		return obj
+	}
+	t := types.Unalias(typeName.Type())
+	if ptr, ok := t.(*types.Pointer); ok {
+		t = types.Unalias(ptr.Elem())
+	}
+	if named, ok := t.(*types.Named); ok {
+		return named.Obj()
+	}
+	return obj
+}
+
 // findIdentViolation checks unqualified identifiers: they refer to another package
 // only through a dot import (import . "pkg"); qualified references are handled by
 // findSelectorExprViolation.
@@ -135,7 +154,8 @@ func findIdentViolation(
 	ctx *packageOnlyContext,
 	ident *ast.Ident,
 ) *PackageOnlyViolation {
-	obj := ctx.pass.TypesInfo.ObjectOf(ident)
+	// only uses count: the identifier that declares an alias is not a reference
+	obj := ctx.pass.TypesInfo.Uses[ident]
 	if obj == nil {
 		return nil
 	}
@@ -143,6 +163,7 @@ func findIdentViolation(
 	if ctx.qualifiedIdents[ident] {
 		return nil // the Sel of a selector expression: already checked there
 	}
+	obj = resolveTypeAlias(obj)
 
 	pkg := obj.Pkg()
 	if pkg == nil {
